@@ -147,8 +147,9 @@ func c19RenderCase(r *fw.Rand, depth, wrap, padEntry, padCallee int, sameFile bo
 			w, ns = &b, "nb"
 		}
 		_ = ns
-		wr(w, "/** @param? u */")
+		wr(w, "/** @param? u\n * @param? z */")
 		wr(w, fmt.Sprintf("{template .t%d}", lv))
+		wr(w, "{isNonnull($z)}")
 		wr(w, "line one{isNonnull($u)}")
 		if lv == 0 {
 			for i := 0; i < r.Intn(3); i++ {
@@ -167,13 +168,19 @@ func c19RenderCase(r *fw.Rand, depth, wrap, padEntry, padCallee int, sameFile bo
 			if !sameFile && (lv+1)%2 == 1 {
 				nextNs = "nb"
 			}
-			switch r.Intn(3) {
+			switch r.Intn(5) {
 			case 0:
 				stmt = fmt.Sprintf("{call %s.t%d /}", nextNs, lv+1)
 			case 1:
 				stmt = fmt.Sprintf("{call %s.t%d data=\"all\" /}", nextNs, lv+1)
-			default:
+			case 2:
 				stmt = fmt.Sprintf("{call %s.t%d}{param u: $u /}{/call}", nextNs, lv+1)
+			case 3:
+				// a call that spans several lines: params with content blocks of their own. The command is the {call}
+				// tag; the error belongs to its line.
+				stmt = fmt.Sprintf("{call %s.t%d}\n  {param u}\n    content line\n    {let $q: 1 /}{$q}\n    last content line\n  {/param}\n{/call}", nextNs, lv+1)
+			default:
+				stmt = fmt.Sprintf("{call %s.t%d}\n  {param key=\"u\" value=\"[1, 2]\" /}\n  {param key=\"z\"}\n  two\n  lines\n  {/param}\n{/call}", nextNs, lv+1)
 			}
 		} else {
 			stmt = bad
@@ -306,6 +313,9 @@ func init() {
 			if k%11 == 5 {
 				return c19Duplicate(ctx)
 			}
+			if k%11 == 7 {
+				return c19Recursive(ctx)
+			}
 			depth := k % 4
 			wrap := (k / 4) % 6
 			sameFile := (k/24)%2 == 0
@@ -387,6 +397,9 @@ func init() {
 			if !cells["source:disk"] {
 				why = append(why, "no bundle was read from disk")
 			}
+			if !cells["render-recursive-entry"] {
+				why = append(why, "no recursive entry template")
+			}
 			if !cells["eol:crlf"] || !cells["render-duplicate-template"] {
 				why = append(why, "CRLF files and duplicate definitions must both be exercised")
 			}
@@ -401,6 +414,58 @@ func init() {
 			"lines(F) = 1 + number of newlines: an error at EOF may be reported on the empty last line",
 		},
 	})
+}
+
+// c19Recursive: the entry template calls itself and the inner instance fails: the failing command of the rendered
+// (outer) instance is its {call}, possibly inside an enclosing block.
+func c19Recursive(ctx *fw.Ctx) fw.Result {
+	r := ctx.Rng
+	bad := c19Bad[r.Intn(5)]
+	var b strings.Builder
+	b.WriteString("{namespace na}\n")
+	line := 2
+	wr := func(s string) int {
+		at := line
+		b.WriteString(s + "\n")
+		line += 1 + strings.Count(s, "\n")
+		return at
+	}
+	for j := 0; j < r.Intn(8); j++ {
+		wr("// padding")
+	}
+	wr("/** @param? u\n * @param? depth */")
+	wr("{template .t0}")
+	wr("line one{isNonnull($u)}")
+	levels := 1 + r.Intn(3)
+	lIf := wr(fmt.Sprintf("{if not $depth or $depth < %d}", levels))
+	wr("  going down")
+	lCall := wr("  {call .t0}{param depth: ($depth ?: 0) + 1 /}{/call}")
+	wr("{else}")
+	wr("  at the bottom")
+	wr("  " + bad)
+	wr("{/if}")
+	wr("{/template}")
+	wr("/** @param? u */\n{template .leaf}{isNonnull($u)}{/template}")
+	name := []string{"tree.soy", "./views/tree.soy", ""}[r.Intn(3)]
+	files := []srcFile{{name, b.String()}}
+	ctx.Cell("render-recursive-entry")
+	ctx.Eval(fmt.Sprintf("rec:%v", files))
+	tofu, err := compile(files, nil)
+	if err != nil {
+		return fw.Result{Verdict: fw.Inconclusive, Key: "render-case-does-not-compile", Msg: errText(err), Case: files}
+	}
+	ijv := ref.MapOf("a", ref.Str("abcdef"))
+	_, rerr := render(tofu, "na.t0", map[string]ref.Value{}, &ijv, nil)
+	if rerr == nil {
+		return fw.Result{Verdict: fw.Inconclusive, Key: "render-case-did-not-fail", Case: files}
+	}
+	ctx.Obs("render_errors_judged", 1)
+	ok := map[int]bool{lIf: true, lCall: true}
+	if key, why := checkPos(rerr, name, func(l int) bool { return ok[l] }, fmt.Sprintf("line %d (the {call} of the rendered instance) or %d (its enclosing {if})", lCall, lIf), 0); key != "" {
+		return fw.Result{Verdict: fw.Violated, Key: "render:" + key + ":recursive-entry", Case: files,
+			Msg: fmt.Sprintf("entry template calling itself %d deep, failing at the bottom: %s", levels, why)}
+	}
+	return fw.Result{Verdict: fw.Held}
 }
 
 // c19Duplicate: two files define the same template, each failing on a different line. Either the bundle is rejected,
